@@ -285,6 +285,7 @@ func run(prop, tier string) int {
 		fmt.Fprintf(os.Stderr, "plan parse: %v\n", err)
 		return 2
 	}
+	deriveCompany(&rc.plan, prop, tier)
 	for _, ph := range rc.plan.Phases {
 		if ph.Race && rc.bins[true] == "" {
 			b, err := buildWorker(tmp, true)
@@ -316,14 +317,89 @@ func run(prop, tier string) int {
 		}
 	}
 
+	var companyPhases []fw.Phase
 	for _, ph := range rc.plan.Phases {
+		if strings.HasSuffix(ph.Name, companySuffix) {
+			companyPhases = append(companyPhases, ph)
+			continue
+		}
 		t0 := time.Now()
 		rc.runPhase(ph)
 		rc.a.phaseInfo = append(rc.a.phaseInfo, map[string]interface{}{
 			"name": ph.Name, "race": ph.Race, "cases": ph.Cases, "exhaustive": ph.Exhaust, "wall_s": time.Since(t0).Seconds()})
 	}
+	// the company passes are one worker process each (quick tier): four of them at a time
+	{
+		var wg sync.WaitGroup
+		var mu sync.Mutex
+		sem := make(chan struct{}, 4)
+		for _, ph := range companyPhases {
+			wg.Add(1)
+			go func(ph fw.Phase) {
+				defer wg.Done()
+				sem <- struct{}{}
+				defer func() { <-sem }()
+				if tier == "thorough" {
+					ph.Jobs = 1
+				}
+				t0 := time.Now()
+				rc.runPhase(ph)
+				mu.Lock()
+				rc.a.phaseInfo = append(rc.a.phaseInfo, map[string]interface{}{
+					"name": ph.Name, "race": ph.Race, "cases": ph.Cases, "exhaustive": ph.Exhaust, "wall_s": time.Since(t0).Seconds()})
+				mu.Unlock()
+			}(ph)
+		}
+		wg.Wait()
+	}
 
 	return rc.finish(start)
+}
+
+// companyProps are the properties whose oracles judge single executions by an absolute
+// reference (model, native function, law) and do not observe the process as a whole
+// (goroutine states, CPU time, exit status): for these every phase of the plain build gets
+// a second, shorter pass "<phase>+company" in which the same cases (same PRNG seeds) run
+// while three other goroutines of the worker process execute a battery of self-checking
+// programs in environments and trees of their own (cmd/vworker/company.go). The statements
+// quantify over every schedule: an execution yields what it would yield alone.
+var companyProps = map[string]bool{"C03": true, "C04": true, "C05": true, "C06": true, "C07": true, "C08": true, "C09": true,
+	"C10": true, "C11": true, "C12": true, "C17": true, "C19": true, "C20": true}
+
+const companySuffix = "+company"
+
+func deriveCompany(p *fw.Plan, prop, tier string) {
+	if !companyProps[prop] || os.Getenv("VERIF_NO_COMPANY") != "" {
+		return
+	}
+	var add []fw.Phase
+	for _, ph := range p.Phases {
+		if ph.Race || ph.Builder != "" || ph.NeedsAnko || ph.Cases <= 0 {
+			continue
+		}
+		chunk := ph.Chunk
+		if chunk <= 0 {
+			chunk = 200
+		}
+		// the first worker process's worth of cases (thorough: the first four)
+		n := chunk
+		if tier == "thorough" {
+			n = 4 * chunk
+		}
+		if n > ph.Cases {
+			n = ph.Cases
+		}
+		d := ph
+		d.Name = ph.Name + companySuffix
+		d.Cases = n
+		d.Exhaust = false
+		d.Jobs = 4
+		if d.TimeoutS > 0 {
+			d.TimeoutS *= 4
+		}
+		add = append(add, d)
+	}
+	p.Phases = append(p.Phases, add...)
 }
 
 func (rc *runCtx) unlistedSoFar() int {
@@ -952,6 +1028,7 @@ func replay(path string) int {
 		return 2
 	}
 	json.Unmarshal(out, &rc.plan)
+	deriveCompany(&rc.plan, v.Property, v.Tier)
 	for _, ph := range rc.plan.Phases {
 		if ph.Name != v.Phase {
 			continue
